@@ -119,6 +119,21 @@ def parse (s : List Char) (regexOk : Bool) : PR :=
         if regexOk then ⟨!partErr, filters, some r⟩
         else ⟨false, filters, none⟩
 
+/-- `LogSpecification::env()`: the value of `RUST_LOG` is parsed; unset (or not unicode: `env::var`
+    fails) gives `off()`, which is `Default::default()` — NO filter at all. The environment is a
+    parameter: `none` = unset. -/
+def envParse (env : Option (List Char)) (rxE : Bool) : PR :=
+  match env with
+  | none => ⟨true, [], none⟩
+  | some e => parse e rxE
+
+/-- `LogSpecification::env_or_parse(given)`: `RUST_LOG` if it is set AND well-formed, else the given
+    string (whose verdict and salvage are then the result's). -/
+def envOrParse (env : Option (List Char)) (given : List Char) (rxE rxG : Bool) : PR :=
+  match env with
+  | none => parse given rxG
+  | some e => if (parse e rxE).ok then parse e rxE else parse given rxG
+
 /-- `impl Display for LogSpecification` -/
 def displayNamed : Bool → List MF → List Char
   | _, [] => []
